@@ -165,8 +165,11 @@ def rand_term_re(rng, chars, d=0):
         return {"t": "cat", "l": rand_term_re(rng, chars, d + 1), "r": rand_term_re(rng, chars, d + 1)}
     if k < 0.8:
         return {"t": "alt", "l": rand_term_re(rng, chars, d + 1), "r": rand_term_re(rng, chars, d + 1)}
-    if k < 0.9:
+    if k < 0.87:
         return {"t": "plus", "e": rand_term_re(rng, chars, d + 1)}
+    if k < 0.94:
+        # a loop in front of a non-nullable tail, e.g. (ab)*ac: acceptance only through states visited earlier
+        return {"t": "cat", "l": {"t": "star", "e": rand_term_re(rng, chars, d + 1)}, "r": rand_term_re(rng, chars, d + 1)}
     return {"t": "cat", "l": rand_term_re(rng, chars, d + 1), "r": {"t": "opt", "e": rand_term_re(rng, chars, d + 1)}}
 
 
